@@ -117,6 +117,37 @@ def trace_clauses(par, jobs, events, cut_short, require_complete=True):
     return bad
 
 
+def stop_clauses(events, maxfail, repeat_gt1):
+    """events: exact sequence of ('s', id) / ('e', id, result letter) / ('v', id) as meson processes them.
+    `--maxfail N` aborts the run once N tests have failed, and under --repeat a failure cuts the run short:
+    from that moment on no further test is started."""
+    bad = []
+    failc, stopped, why = 0, False, ''
+    for pos, ev in enumerate(events):
+        if ev[0] == 's' and stopped:
+            bad.append('test %d is started (event %d) although %s' % (ev[1], pos, why))
+        if ev[0] == 'e':
+            r = ev[2]
+            if r in 'FEI':
+                failc += 1
+            isbad = r in 'FTIUE'
+            if not stopped and ((maxfail > 0 and failc >= maxfail and isbad) or (maxfail < 0 and isbad)):
+                stopped, why = True, '--maxfail %d was reached at event %d (%d failures)' % (maxfail, pos, failc)
+            if not stopped and repeat_gt1 and failc > 0:
+                stopped, why = True, 'a test failed under --repeat at event %d' % pos
+    return bad
+
+
+def priority_clauses(names, prio):
+    """names in the order meson lists / starts them (one job); documented: tests with a higher priority are
+    started before tests with a lower priority"""
+    bad = []
+    for a, b in zip(names, names[1:]):
+        if prio[a] < prio[b]:
+            bad.append('%s (priority %d) comes before %s (priority %d)' % (a, prio[a], b, prio[b]))
+    return bad
+
+
 def slice_clauses(selected, slices):
     """selected: list of names; slices: list (i = 1..n) of lists of names.  --slice i/n over
     i = 1..n partitions the selected tests."""
@@ -443,7 +474,12 @@ def do_workers(args):
                 os.environ[k] = v
 
 
-FUNCS = {'classify': do_classify, 'tally': do_tally, 'sched': do_sched, 'select': do_select,
+def do_glob(args):
+    """the fnmatch that mesonbuild.mtest itself imports: does string args[1] match pattern args[0]?"""
+    return 'T' if mtest.fnmatch(args[1], args[0]) else 'F'
+
+
+FUNCS = {'glob': do_glob, 'classify': do_classify, 'tally': do_tally, 'sched': do_sched, 'select': do_select,
          'suite': do_suite, 'slice': do_slice, 'runner': do_runner, 'jobsopt': do_jobsopt, 'workers': do_workers}
 
 
